@@ -260,6 +260,9 @@ def run_property(pid, tier):
         log(f"source differs from the validated record in {res['source_changed'][:6]}: searching with the thorough oracle budget")
     # 1-2 lean
     lean_step(pid, cfg, res)
+    # line coverage of the property's source files during correspondence + oracle (what the differential tie has seen)
+    import covmon
+    cov_on = covmon.start(REPO)
     # 3 correspondence
     mism = corr_step(pid, cfg, res, tier, False)
     deep = bool(res["broken"]) or bool(res["source_changed"])
@@ -279,6 +282,10 @@ def run_property(pid, tier):
         res["oracle"] = {k: o[k] for k in o if k not in ("violations", "known")}
         res["oracle"]["violations"] = len(o.get("violations", []))
         res["oracle"]["known"] = len(o.get("known", []))
+    if cov_on:
+        covmon.stop()
+        files = sorted(set(srcshape.anchors().get(pid, [])) | set(srcshape.EXTRA.get(pid, [])))
+        res["impl_coverage"] = covmon.report(REPO, files)
     wall = time.time() - t0
     # verdict
     rc = 0
@@ -322,6 +329,7 @@ def run_property(pid, tier):
         "regenerated": res.get("regenerated", []), "corpus_replays": res.get("corpus_replays", []),
         "broken_obligations": res["broken"], "build_s": res.get("build_s"), "translate_s": res.get("translate_s"),
         "leanchecker": res.get("leanchecker"), "source_changed": res.get("source_changed", []),
+        "impl_line_coverage": res.get("impl_coverage", {}),
         "known_findings_printed": sorted(set(known_lines)),
     }
     write_evidence(pid, tier, "proof", cov, cfg.get("assumptions", []), wall, violations=len(violations))
